@@ -286,7 +286,9 @@ LEVEL_TEXT["C08"] = {
             "(section_data_reads_only_its_range). Laziness at trace level, as theorems: query_io_is_designated - every I/O event any of the 12 queries records (each seek, read-buffer allocation, read call, completed load) belongs to a byte range that query designates (Query.designates: the passed header's range; the section-name string table named by e_shstrndx / shdr[0].sh_link; the first section of the wanted type and the string table its sh_link names; SHT_DYNAMIC, or PT_DYNAMIC when there are no section headers; the version sections found by the scan and their linked string tables) in any state, under any schedule, whatever the outcome; open_is_lazy - a successful open_stream touches, after measuring the length, only the 16 ident bytes, the rest of the file header, whole section-header-sized entries at e_shoff and whole program-header-sized entries at e_phoff. The same trace is compared as a coalesced (offset, bytes) trace "
             "between model and code and checked by an oracle. Measured, not proved: std's Vec/HashMap growth policy and the header Vecs - "
             "the size-recording global allocator asserts max single allocation <= 8*len + 8 KiB.",
-    "note": COMMON_NOTE + " Partial: allocator growth policy (Vec/HashMap) is measured, not proved; open_is_lazy is stated for successful opens.",
+    "note": COMMON_NOTE + " Partial: allocator growth policy (Vec/HashMap) is measured, not proved. Laziness of opening is proved for every outcome "
+            "(open_is_lazy_whatever_it_returns: the ranges a failing open may have touched are determined by the identification and header the "
+            "stream's contents hold; bad_ident_reads_ident_only).",
     "technique": "Lean 4 proof (totality of open and every query; allocation bound as an invariant of every history; extent of a load; every I/O event of every query lies in a designated range; lazy open) + recording reader / size-recording allocator correspondence",
 }
 LEVEL_TEXT["C17"] = {
